@@ -29,10 +29,15 @@ def _params(depths, bases=("sync", "tp"), pairs=PAIRS, faulty=True, threads=(1, 
                             for rec in ("none", "value"):
                                 out.append(dict(layers=layers, base=base, scripts=("X", "ok"), faulty=None, nthreads=1,
                                                 efn=(pos, rec)))
+                        if l == "flat_map":
+                            # fn returns an already failed future while an error_fn is installed: the
+                            # returned future's failure is the outcome, error_fn is for failed inputs only
+                            out.append(dict(layers=layers, base=base, scripts=("ok", "ok"), faulty=None, nthreads=1,
+                                            flatfail=pos))
     return out
 
 
-def ref_eval(layers, script, faulty, sub, efn=None):
+def ref_eval(layers, script, faulty, sub, efn=None, flatfail=None):
     """Sequential reference: returns (outcome, number of invocations of the callable).
     outcome = ('ok', value) | ('err', tag-of-exception)"""
     state = {"k": 0}
@@ -60,6 +65,8 @@ def ref_eval(layers, script, faulty, sub, efn=None):
                     return out
             return out
         out = run(level - 1)
+        if flatfail == pos and out[0] == "ok":
+            return ("err", "E2", "inner@%d" % pos)
         if efn is not None and efn[0] == pos and out[0] == "err":
             return ("ok", None if efn[1] == "none" else ("rec", pos))
         if layer in ("map", "flat_map", "poll") and out[0] == "ok":
@@ -86,6 +93,17 @@ def body(mc, p):
             opts["error_fn@%d" % pos] = [("ret", val)]
         else:
             opts["error_fn@%d" % pos] = [("call", lambda ex, _v=val: f_return(_v))]
+    if p.get("flatfail") is not None:
+        from more_executors._impl.futures import f_return, f_return_error
+        pos = p["flatfail"]
+        inner_excs = []
+
+        def failing_future(v, _pos=pos):
+            exc = E2("inner@%d" % _pos)
+            inner_excs.append(exc)
+            return f_return_error(exc)
+        opts["flat_fn@%d" % pos] = [("call", failing_future)]
+        opts["error_fn@%d" % pos] = [("call", lambda ex, _pos=pos: f_return(("rec", _pos)))]
     st = Stack(mc, layers, base=p["base"], workers=2, opts=opts)
     ex = st.top
     OUT = {"ok": None, "E": ("raise", E), "X": ("raise", E2)}
@@ -119,6 +137,8 @@ def body(mc, p):
             same = any(exc is r for r in fns[i].raised) or None
             if same is None and p["faulty"] is not None:
                 same = any(exc is r for sc in st.user.values() for r in sc.raised) or None
+            if same is None and p.get("flatfail") is not None:
+                same = any(exc is r for r in inner_excs) or None
         res.append((s[0], s[1], same))
     mc.observe(res=tuple(res), ncalls=tuple(len(fn.calls) for fn in fns),
                args=tuple(tuple((brief(a), brief(k)) for a, k in fn.calls) for fn in fns))
@@ -130,7 +150,7 @@ def check(x):
     if not x.require(x.end == "done" and "res" in x.obs, "bad-ending", end=x.end, depth=len(p["layers"])):
         return
     for i, sk in enumerate(p["scripts"]):
-        want, ncalls = ref_eval(p["layers"], SCRIPTS[sk], p["faulty"], i, p.get("efn"))
+        want, ncalls = ref_eval(p["layers"], SCRIPTS[sk], p["faulty"], i, p.get("efn"), p.get("flatfail"))
         state, val, same = x.obs["res"][i]
         if want[0] == "ok":
             ok = state == "ok" and val == brief(want[1])
